@@ -288,6 +288,7 @@ impl<'a> World<'a> {
                 }
                 LocalSwarmCmd::RemoveFailedLocalRecord { key } => {
                     if let Some(i) = self.rkeys.iter().position(|k| k == key) {
+                        self.keys[i].failed_pending.clear();
                         self.indexed[i] = false;
                         self.unacked[i] = self.unacked[i].saturating_sub(1);
                         if !self.keys[i].pending_writes.is_empty() || self.unacked[i] > 0 {
@@ -354,6 +355,7 @@ impl<'a> World<'a> {
                     Some(v) => {
                         if self.keys[i].file == FileState::Blocked {
                             self.rep.fault("disk_write_error");
+                            self.keys[i].failed_pending.push(v);
                             // the failed write is lost; a newer accepted put is not affected by the model
                             if self.keys[i].expect == Expect::Value(v) {
                                 self.keys[i].expect = Expect::Absent;
@@ -1001,6 +1003,12 @@ impl<'a> World<'a> {
         }
         if res.is_ok() {
             self.keys[key].expect = Expect::Value(val);
+            if !wrote && self.keys[key].failed_pending.contains(&val) {
+                // the store took the cached copy of this very value as proof that it is stored, but its
+                // only disk write has already failed (injected fault): the put shares the fate of that write
+                self.keys[key].expect = Expect::Absent;
+                self.rep.probe("put_of_value_whose_write_already_failed");
+            }
             if wrote && evicted.is_empty() && !is_held && unacked_before > 0
                 && held.len() + unacked_before as usize >= self.plan.capacity
             {
